@@ -386,6 +386,13 @@ def generate(rnd, tier, scale):
         rnd.shuffle(fam)
         rs = [{"t": "h", "items": f} if rnd.random() < 0.8 else {"t": "p", "dice": [f]} for f in fam[: rnd.randint(2, 4)]]
         yield dict(op=op, l=_rand_opd(rnd, "int", allow_scalar=False), rs=rs)
+    for _ in range(max(10, n // 60)):
+        # relabelling by a scalar can MERGE outcomes (a float scalar absorbs neighbouring huge ints): counts add
+        base = 2 ** rnd.choice([53, 54, 60])
+        hist = {"t": "h", "items": [["i:%d" % (base + d), rnd.choice([1, 2, 3])] for d in sorted(rnd.sample(range(0, 5), rnd.randint(2, 4)))]}
+        sc = {"t": "s", "v": rnd.choice(["f:1.0", "f:0.5", "f:-1.0", "f:2.0"])}
+        l, r = (sc, hist) if rnd.random() < 0.6 else (hist, sc)
+        yield dict(op=rnd.choice(["add", "sub", "mul"]), l=l, r=r)
     for _ in range(n):
         op = rnd.choice(ops)
         kind = rnd.choice(["int", "int", "neg", "frac", "bool", "float"])
